@@ -45,7 +45,7 @@ def generate(ctx):
         cases.append(Case('hist DX @%d.%d %s;dup:0:1;size:0;each:1;geto:0:x7372' % (nb, k, build), {'tags': ['dup-under-failure', 'k=%d' % k]}))
     n = 300 if quick else 1200
     for i in range(n):
-        nops = 40 if quick else rng.choice([20, 40, 80, 160])
+        nops = 40 if quick else rng.choice([20, 40, 60, 80, 100])     # longer 'dup' histories make trees of 10^4 blocks (copies of copies): minutes per case in the extracted heap model
         cases.append(coregen.history_case(rng, 'dup', nops, 'DX'))
     # "the source is never modified", literally: the same histories with every block the library holds made READ-ONLY around each run of
     # calls that only read what exists (duplicate, queries) — a store into the source, even one that is undone afterwards, faults
